@@ -177,6 +177,64 @@ def p521_public_mode(ctx):
     ctx.count("p521_public_mode:refused", refused)
 
 
+
+def concurrent_identical(ctx):
+    """N async protect calls with IDENTICAL arguments in flight on one event loop (asyncio.gather over a batch), from the cache (root key
+    loaded) and through a stubbed DC (public-key reply): every call must still make its own draws — the blobs, their CEKs (unwrapped with an
+    independently derived KEK where possible), GCM nonces and key-identifier values are pairwise distinct"""
+    import asyncio, uuid
+    import dpapi_ng
+    import dpapi_ng._client as c
+    from dpapi_ng._blob import DPAPINGBlob, ProtectionDescriptor
+    from cryptography.hazmat.primitives import keywrap
+    rk = uuid.UUID("d778c271-9025-9a82-f6dc-b8960b8ad8c5")
+    root, sid, now = bytes(range(64)), "S-1-5-21-1-2-3-1103", (361, 17, 13)
+    now_ns = clientsim.time_ns_for(*now)
+    old = (c.time, c._async_get_key)
+    c.time = type("T", (), {"time_ns": staticmethod(lambda: now_ns)})
+    chain = refimpl.Chain("sha512", root, rk, ProtectionDescriptor.parse(sid).get_target_sd(), now[0])
+    try:
+        for path in ("cache", "dc-public"):
+            cache = dpapi_ng.KeyCache()
+            if path == "cache":
+                cache.load_key(root, root_key_id=rk)
+            else:
+                import gen
+                pub = refimpl.group_public_key("sha512", chain.K2(now[1], now[2]), "ECDH_P256", b"", 256)
+                env = gen.make_env(l0=now[0], l1=now[1], l2=now[2], l1_key=b"", l2_key=pub, flags=1, secret_algorithm="ECDH_P256", secret_parameters=b"",
+                                   private_key_length=256, public_key_length=512, root_key_identifier=rk, kdf_parameters=gen.kdf_params("SHA512"))
+
+                async def agk(*a, **kw):
+                    await asyncio.sleep(0)
+                    return env
+                c._async_get_key = agk
+
+            async def batch():
+                return await asyncio.gather(*[dpapi_ng.async_ncrypt_protect_secret(b"same data", sid, root_key_identifier=rk, cache=cache, server="dc01") for _ in range(6)])
+            try:
+                blobs = asyncio.run(batch())
+            except Exception as e:  # noqa
+                ctx.violation("concurrent identical async protects fail", {"scenario": "concurrent_identical", "path": path}, canon_exc(e), "six blobs")
+                continue
+            ctx.count("concurrent_identical:" + path, len(blobs))
+            ivs, kis, ceks = [], [], []
+            for raw in blobs:
+                b = DPAPINGBlob.unpack(raw)
+                ivs.append(bytes(b.enc_content_parameters[4:16]))
+                kis.append(bytes(b.key_identifier.key_info))
+                if path == "cache":
+                    ceks.append(keywrap.aes_key_unwrap(refimpl.kek_nonce("sha512", chain.K2(b.key_identifier.l1, b.key_identifier.l2), b.key_identifier.key_info), b.enc_cek))
+                else:
+                    ceks.append(bytes(b.enc_cek))
+            for what, vals in (("blob", [bytes(x) for x in blobs]), ("GCM nonce", ivs), ("key-identifier value", kis), ("CEK" if path == "cache" else "wrapped CEK", ceks)):
+                if len(set(vals)) != len(vals):
+                    ctx.violation(f"{what} repeated across concurrent identical protect calls", {"scenario": "concurrent_identical", "path": path, "calls": len(vals)},
+                                  f"{len(set(vals))} distinct of {len(vals)}", "pairwise distinct")
+                    return
+    finally:
+        c.time, c._async_get_key = old
+
+
 def run(ctx):
     prelude.validate(ctx)
     cases = []
@@ -197,6 +255,7 @@ def run(ctx):
         total += history(ctx, True, mode, 400 if ctx.thorough else 60)
     ctx.count("real_urandom_protects", total)
     overlapping(ctx)
+    concurrent_identical(ctx)
     p521_public_mode(ctx)
 
 
